@@ -361,7 +361,7 @@ class HalfRankComponent(OutputWarper):
     self._unwarper = _HalfRankUnwarper(
         original_labels=unique_labels,
         warped_labels=labels_arr[is_finite][unique_idx],
-        original_label_median=unique_labels[len(unique_labels) // 2],
+        original_label_median=median,
     )
     return labels_arr[:, np.newaxis]
 
